@@ -72,6 +72,46 @@ fn env_along(bits: &[bool], tail_depth: usize) -> T {
     t
 }
 
+/// The path-atom family shared by C04, C06 and C12: all 1-byte atoms, 2-byte atoms with the first byte
+/// from a boundary set x all second bytes, and lengths 3..9 over boundary patterns.
+pub fn path_family(thorough: bool) -> (Vec<Vec<u8>>, Vec<u8>) {
+    let mut paths: Vec<Vec<u8>> = vec![];
+    for b in 1..=255u8 {
+        paths.push(vec![b]);
+    }
+    paths.push(vec![0]);
+    let firsts: Vec<u8> = if thorough { vec![0x00, 0x01, 0x02, 0x03, 0x0f, 0x10, 0x3f, 0x40, 0x55, 0x7f, 0x80, 0x81, 0xaa, 0xc0, 0xfe, 0xff] } else { vec![0x00, 0x01, 0x80, 0xff] };
+    for a in &firsts {
+        for b in 0..=255u8 {
+            paths.push(vec![*a, b]);
+        }
+    }
+    for len in 3..=9usize {
+        for first in [0x00u8, 0x01, 0x7f, 0x80, 0xff] {
+            for mid in [0x00u8, 0x55, 0xff] {
+                for last in [0x00u8, 0x01, 0x80, 0xff] {
+                    let mut v = vec![first];
+                    v.extend(std::iter::repeat(mid).take(len - 2));
+                    v.push(last);
+                    paths.push(v);
+                }
+            }
+        }
+    }
+    (paths, firsts)
+}
+
+pub fn path_envs(p: &[u8], big_depth: usize) -> Vec<T> {
+    let mut n1 = 0;
+    let mut v = vec![complete_tree(big_depth, &mut n1), spine(90, &|_| false), spine(90, &|_| true), spine(90, &|i| i % 2 == 0), spine(90, &|i| i % 2 == 1)];
+    if let Some(bits) = path_bits(p) {
+        if bits.len() <= 80 {
+            v.push(env_along(&bits, 3));
+        }
+    }
+    v
+}
+
 // ---------------------------------------------------------------------------
 // C06
 
@@ -285,6 +325,32 @@ pub fn c06(thorough: bool, replay: Option<String>) -> i32 {
     let n = es.total / stride * ne2;
     let (st, capped) = par_range(n, 1024, cap, || (), |_, st, i| compare_c06(st, &es.get((i / ne2) * stride), &envs2[(i % ne2) as usize], Spell::Convert, true, "expr"));
     rep.add_sub("expressions", &format!("well-formed expressions of nesting depth <= 2 over f r l c + = i a, paths and constants ({} in total; {}) x 2 environments", es.total, if stride == 1 { "all".to_string() } else { format!("every {}rd by index, a fixed sub-enumeration", stride) }), n, stride == 1, capped, st);
+
+    // (ii'') the path family: every path atom in every spelling a tool can hand to the evaluator
+    {
+        let (paths, firsts) = path_family(thorough);
+        let variants: Vec<(Spell, bool)> = vec![(Spell::Convert, true), (Spell::Convert, false), (Spell::Int, true), (Spell::Hex, true), (Spell::Atom, true)];
+        let nv = variants.len() as u64;
+        let nctx = 3u64;
+        let n = paths.len() as u64 * nv * nctx;
+        let (st, capped) = par_range(n, 16, cap, || (), |_, st, i| {
+            let p = &paths[(i / (nv * nctx)) as usize];
+            let (spell, fixed) = variants[((i / nctx) % nv) as usize];
+            if !fixed && p.iter().all(|b| *b == 0) {
+                st.outcome("legacy-mode-with-all-zero-atom(no claim)");
+                return;
+            }
+            let prog = match i % nctx {
+                0 => T::A(p.clone()),
+                1 => T::list(&[T::a(&[2]), quote(T::A(p.clone())), T::a(&[1])]),
+                _ => T::list(&[T::a(&[4]), T::A(p.clone()), quote(T::int(1))]),
+            };
+            for env in path_envs(p, 9) {
+                compare_c06(st, &prog, &env, spell, fixed, "paths");
+            }
+        });
+        rep.add_sub("paths", &format!("{} path atoms (all 1-byte, 2-byte with first byte in {} values x all second bytes, lengths 3..9 over boundary patterns) as the program, re-rooted through (a (q . P) 1), and as an operand, x 5 spellings (converted in both integer modes, integer, hex string, atom); environments: complete tree of depth 9, four 90-deep spines, and a tree tailored to the path's bits", paths.len(), firsts.len()), n, true, capped, st);
+    }
 
     // (iii) spellings of the core programs
     let leaves3 = if thorough { 4 } else { 3 };
@@ -611,29 +677,7 @@ pub fn c04(thorough: bool, replay: Option<String>) -> i32 {
     rep.add_sub("expressions", &format!("well-formed expressions of nesting depth <= 2 ({} in total; {}), each in 3 environments", es.total, if stride == 1 { "all".to_string() } else { format!("every {}th by index, a fixed sub-enumeration", stride) }), n, stride == 1, capped, st);
 
     // (ii) path family
-    let mut paths: Vec<Vec<u8>> = vec![];
-    for b in 1..=255u8 {
-        paths.push(vec![b]);
-    }
-    paths.push(vec![0]);
-    let firsts: Vec<u8> = if thorough { vec![0x00, 0x01, 0x02, 0x03, 0x0f, 0x10, 0x3f, 0x40, 0x55, 0x7f, 0x80, 0x81, 0xaa, 0xc0, 0xfe, 0xff] } else { vec![0x00, 0x01, 0x80, 0xff] };
-    for a in &firsts {
-        for b in 0..=255u8 {
-            paths.push(vec![*a, b]);
-        }
-    }
-    for len in 3..=9usize {
-        for first in [0x00u8, 0x01, 0x7f, 0x80, 0xff] {
-            for mid in [0x00u8, 0x55, 0xff] {
-                for last in [0x00u8, 0x01, 0x80, 0xff] {
-                    let mut v = vec![first];
-                    v.extend(std::iter::repeat(mid).take(len - 2));
-                    v.push(last);
-                    paths.push(v);
-                }
-            }
-        }
-    }
+    let (paths, firsts) = path_family(thorough);
     // wrapper chains
     let mut chains: Vec<Vec<bool>> = vec![vec![]];
     let maxall = if thorough { 6 } else { 3 };
